@@ -326,7 +326,138 @@ class CliSpec(TallySpec):
                 'nontrivial': len(set(outcomes.outcome(k) for k in kinds)) >= 2}
 
 
+class GlobalExecSpec(TallySpec):
+    """--global-exec code runs in front of every doctest that executes anything.  Benign code changes no outcome; code that
+    raises makes no doctest runnable: the run may abort (no tally at all), but a tally that *is* produced must still agree with
+    itself and with the exit status (whatever is listed as failed is counted as failed and makes the exit status non-zero, the
+    counts add up to the number run, nothing that could not start is counted as passed)"""
+    title = 'modules x --global-exec code (benign / raising) through the native runner'
+    GX = ['gx10 = 5', 'import nonexistent_module_xv10', 'raise ValueError("gx")']
+
+    def __init__(self, name, max_len):
+        TallySpec.__init__(self, name, max_len)
+        self.rule = ('history = sequence of <= %d doctests over the outcome kinds (as the tally specs), x global_exec code in %r x '
+                     'entry (doctest_module(config=...), CLI main --global-exec) x verbosity 0/1; non-trivial = raising code with '
+                     'at least one doctest that executes something' % (max_len, self.GX))
+
+    def run_case(self, hist):
+        import xdoctest
+        from xdoctest.__main__ import main as xmain
+        kinds = list(hist)
+        S = self.init()
+        for k in kinds:
+            S = self.step(S, k)
+        n_pass, n_fail, n_skip, n_dis = S
+        atoms = []
+        n_runs = 0
+        names = [outcomes.fname(j) for j in range(len(kinds))]
+        with harness.scratch_dir('c10g') as d:
+            tracefile = os.path.join(d, 'trace.txt')
+            src = outcomes.module_source(kinds, tracefile)
+            modname = harness.unique_modname('m10g', src)
+            path = os.path.join(d, modname + '.py')
+            with open(path, 'w') as f:
+                f.write(src)
+            cwd = os.getcwd()
+            os.chdir(d)
+            try:
+                for gx in self.GX:
+                    benign = gx == self.GX[0]
+                    for verbose in (0, 1):
+                        for use_main in (False, True):
+                            buf = io.StringIO()
+                            rc = summary = raised = None
+                            with contextlib.redirect_stdout(buf), contextlib.redirect_stderr(buf), harness.fresh_process_warning_filters():
+                                try:
+                                    if use_main:
+                                        rc = xmain(['xdoctest', path, 'all', '--verbose=%d' % verbose, '--nocolor', '--global-exec=' + gx])
+                                    else:
+                                        summary = xdoctest.doctest_module(path, command='all', argv=[], verbose=verbose,
+                                                                          config={'global_exec': gx})
+                                except SystemExit as ex:
+                                    rc = ex.code
+                                except BaseException as ex:
+                                    if type(ex).__name__ == 'CaseTimeout':
+                                        raise
+                                    raised = ex
+                            n_runs += 1
+                            harness.forget_modules(modname)
+                            if os.path.exists(tracefile):
+                                os.unlink(tracefile)
+                            out = buf.getvalue()
+                            tag = 'gx:benign' if benign else 'gx:raising'
+                            where = '%s, global_exec=%r, verbose=%d' % ('CLI' if use_main else 'doctest_module', gx, verbose)
+                            if raised is not None:
+                                if benign:
+                                    atoms.append({'sig': tag + ':raises:' + type(raised).__name__, 'msg': '%s: %r' % (where, raised)})
+                                continue         # raising code: the run aborted, no tally to judge
+                            if use_main:
+                                listed = re.findall(r'^python -m xdoctest \S+ (\S+)$', out.split('=== Failed tests ===')[-1], re.M) if '=== Failed tests ===' in out else []
+                                m = SUMMARY_RE.findall(out)
+                                got = {}
+                                if m:
+                                    for part in m[-1].split(', '):
+                                        if ' ' in part:
+                                            num, word = part.split(' ')
+                                            got[word] = int(num)
+                                    got.pop('warnings', None)
+                                if benign:
+                                    if (rc != 0) != (n_fail > 0):
+                                        atoms.append({'sig': tag + ':exit-status', 'msg': '%s: exit status %r with %d failing' % (where, rc, n_fail)})
+                                    exp = {k: v for k, v in (('failed', n_fail), ('passed', n_pass), ('skipped', n_skip)) if v}
+                                    if verbose >= 1 and len(kinds) - n_dis > 0 and got != exp:
+                                        atoms.append({'sig': tag + ':summary-line', 'msg': '%s: %r, expected %r' % (where, got, exp)})
+                                else:
+                                    if listed and not rc:
+                                        atoms.append({'sig': tag + ':exit-status-zero-with-failed-doctests-listed', 'msg': '%s: lists %r as failed, exit status %r' % (where, listed, rc)})
+                                    if m and got.get('failed', 0) != len(listed):
+                                        atoms.append({'sig': tag + ':summary-line-vs-failed-list', 'msg': '%s: summary %r, listed as failed %r' % (where, got, listed)})
+                                    if m and got.get('passed', 0) > 0:
+                                        atoms.append({'sig': tag + ':counted-as-passed', 'msg': '%s: summary %r although no doctest could start' % (where, got)})
+                            else:
+                                s_ = summary or {}
+                                tallies = (s_.get('n_passed'), s_.get('n_failed'), s_.get('n_skipped'))
+                                failed = [e.callname for e in s_.get('failed', [])]
+                                if benign:
+                                    if tallies != (n_pass, n_fail, n_skip):
+                                        atoms.append({'sig': tag + ':tallies', 'msg': '%s: %r, expected %r' % (where, tallies, (n_pass, n_fail, n_skip))})
+                                else:
+                                    if None in tallies or sum(tallies) != s_.get('n_total'):
+                                        atoms.append({'sig': tag + ':tallies-do-not-add-up', 'msg': '%s: (passed, failed, skipped)=%r, n_total=%r' % (where, tallies, s_.get('n_total'))})
+                                    if len(failed) != s_.get('n_failed'):
+                                        atoms.append({'sig': tag + ':failed-list-vs-n_failed', 'msg': '%s: failed=%r, n_failed=%r' % (where, failed, s_.get('n_failed'))})
+                                    if s_.get('n_passed'):
+                                        atoms.append({'sig': tag + ':counted-as-passed', 'msg': '%s: n_passed=%r although no doctest could start' % (where, s_.get('n_passed'))})
+            finally:
+                os.chdir(cwd)
+                harness.forget_modules(modname)
+        seen = set()
+        uniq = []
+        for a in atoms:
+            if a['sig'] not in seen:
+                seen.add(a['sig'])
+                uniq.append(a)
+        return {'atoms': uniq, 'n': n_runs, 'outcome': '%d/%d/%d/%d' % S, 'case': {'kinds': kinds, 'module': src},
+                'nontrivial': int(any(outcomes.traces(k) for k in kinds))}
+
+
+class CmdNameSpec(TallySpec):
+    """the tally specs for modules whose callables bear the names of the runner's commands (all, list, dump)"""
+    title = 'modules whose callables are named all / list / dump through the native runner'
+
+    def __init__(self, name, max_len, max_cost=99):
+        TallySpec.__init__(self, name, max_len, max_cost=max_cost)
+        self.rule = 'callables named %r: ' % (outcomes.COMMAND_NAMES,) + self.rule
+
+    def run_case(self, hist):
+        outcomes.NAMES = outcomes.COMMAND_NAMES
+        try:
+            return TallySpec.run_case(self, hist)
+        finally:
+            outcomes.NAMES = None
+
+
 def specs(tier):
     if tier == 'thorough':
-        return [TallySpec('modules<=3', 3), TallySpec('modules=4', 4, min_len=4, max_cost=4), MultiBlockSpec(), CliSpec('cli<=3', 3, max_cost=4)]
-    return [TallySpec('modules<=2', 2), TallySpec('modules=3', 3, min_len=3, max_cost=3), MultiBlockSpec(), CliSpec('cli<=2', 2)]
+        return [TallySpec('modules<=3', 3), TallySpec('modules=4', 4, min_len=4, max_cost=4), MultiBlockSpec(), CliSpec('cli<=3', 3, max_cost=4), GlobalExecSpec('global-exec<=3', 3), CmdNameSpec('command-names<=3', 3, max_cost=4)]
+    return [TallySpec('modules<=2', 2), TallySpec('modules=3', 3, min_len=3, max_cost=3), MultiBlockSpec(), CliSpec('cli<=2', 2), GlobalExecSpec('global-exec<=2', 2), CmdNameSpec('command-names<=2', 2, max_cost=3)]
